@@ -5,7 +5,7 @@ HERE = os.path.dirname(os.path.dirname(os.path.abspath(__file__)))
 TECH = ("runtime monitoring: real driver code executed on a simulated nRF24L01 environment; ")
 CHECKS = {
  "C01": ("unique-id payload histories + SPI-bus byte monitor + caller-buffer snapshot monitor", "4/C01",
-         "Seeded exploration of (length, buffer type, length mode, pipe, address width, rate, CRC, ack mode, list form, SPI flavour); every payload is followed from the W_TX_PAYLOAD bytes on the bus to the peer's read(), with exactly-once/order/pipe checks and a state-based rejection clause. Exploration, not proof: held on the executions observed."),
+         "Seeded exploration of (length, buffer type, length mode, pipe, address width, rate, CRC, ack mode, list form, SPI flavour); every payload is followed from the W_TX_PAYLOAD bytes on the bus to the peer's read(), with exactly-once/order/pipe checks and a state-based rejection clause; ping-pong role swaps, write()-until-refused streaming and set-up histories between opening the pipes and the traffic (role round trips, with re-entry, late address width, sender with its own pipe-0 address). Exploration, not proof: held on the executions observed."),
  "C02": ("offline checker over the air log + PTX transaction record per send()/resend() call, under per-attempt fault plans; virtual-clock deadline monitor", "4/C02",
          "Exhaustive {lost, ack-lost, delivered}^n loss patterns for <=4 (quick) / <=6 (thorough) attempts, all ACK-payload call histories of depth 3/4, structured first-success-at-k patterns up to arc 15 x force_retry 3, and random call sequences; each call's result is compared with what the simulated radio actually did, attempts are counted on air, leaks after return and into later calls are looked for, and termination is a bounded-progress check on the virtual clock."),
  "C03": ("register-file snapshot monitor vs. independent datasheet-derived reference configuration model + SPI sanitizer + with-block coherence probe", "4/C03",
@@ -13,7 +13,7 @@ CHECKS = {
  "C05": ("unique-id message histories over a deterministic multi-MCU scheduler; offline exactly-once/no-misdelivery checker over all nodes' application logs + air log", "4/C05",
          "Sampled tree topologies (2..12 real driver instances, one thread per MCU, seeded cost profiles and jitter) exchanging one message at a time; judged at virtual-time quiescence. Ideal medium for liveness clauses, hostile medium for no-corruption/no-misdelivery only. Known protocol-level finding (fragmented multi-hop) is reported as KNOWN-FINDING by mechanism."),
  "C06": ("unique-id fragment histories checked by set membership/counting against the sent messages (fragments from an independent TMRh20-numbering fragmenter)", "4/C06",
-         "Exhaustive per-fragment {drop, once, twice} patterns with adjacent transpositions and every dequeue point for 2..4 fragments, all interleavings of two senders' streams with equal/different frame ids, plus random stray/restart histories up to 7 fragments and 3 senders; delivered through the radio RX FIFO + update() and through FrameQueueFrag.enqueue directly."),
+         "Exhaustive per-fragment {drop, once, twice} patterns with adjacent transpositions and every dequeue point for 2..4 fragments, all interleavings of two senders' streams with equal/different frame ids, plus random stray/restart histories up to 7 fragments and 3 senders; tail-replay histories for message types that coincide with fragment counters and queue-pressure histories (finished message refused or only just fitting, late repeats after the application read); delivered through the radio RX FIFO + update() and through FrameQueueFrag.enqueue directly."),
  "C08": ("reference automaton at every call return + CONFIG/CE trace monitor + real probe transmissions from a third simulated radio", "4/C08",
          "Breadth-first exploration with state hashing (radio registers x driver object state) to depth 4 (quick) / 6 (thorough) over a 19-call alphabet x address widths 3..5, plus random depth-30 walks; the last call of every executed path is followed by probe packets / a send() to a listening peer."),
  "C09": ("pure observation: register snapshot at the end of an object's block vs. snapshot right after re-entry, for interleaved objects of all driver classes on one radio", "4/C09",
@@ -21,23 +21,23 @@ CHECKS = {
  "C10": ("accessor results and side effects compared with the simulator's FIFOs/STATUS/OBSERVE_TX/IRQ line after every call; status-derived attributes judged against the STATUS byte actually shifted out", "4/C10",
          "Random histories of traffic (injected and real receptions on all pipes, transmissions with k lost attempts, queued payloads, ACK payloads) interleaved with all accessor forms in dynamic, static (per-pipe lengths) and mixed modes and all IRQ masks."),
  "C12": ("history + executable reference queue; clone-and-drain content comparison after every operation", "4/C12",
-         "All operation histories of depth 6 (quick) / 8 (thorough) over a 9-operation alphabet (fresh/duplicate/re-used-object enqueue, dequeue, peek, len, max_queue_size lower/higher, fragmentation toggle) by DFS with cloned states, plus random walks on a real node with `fragmentation` toggled."),
+         "All operation histories of depth 6 (quick) / 8 (thorough) over a 10-operation alphabet (fresh/duplicate/same-id-other-type/re-used-object enqueue with messages of 0..144 bytes mutated in place afterwards, dequeue, peek, len, max_queue_size lower/higher, fragmentation toggle) by DFS with cloned states, plus random walks on a real node with `fragmentation` toggled."),
  "C04": ("ground-truth listening table + observed next hops on a complete 781-node network of real nodes sharing one simulated medium; offline path composition vs. digit-arithmetic reference", "4/C04",
-         "All 781x6 listening entries (uniqueness, level-shared pipe 0) for the default and seeded random address bytes with multicast on/off; each observed hop is a real transmission that must be accepted by exactly one radio, the reference next hop: 48 class-chosen destinations per node in both roles (quick), all 781x780 pairs (thorough); multicast level membership by reception."),
+         "All 781x6 listening entries (uniqueness, level-shared pipe 0) for the default and seeded random address bytes with multicast on/off; each observed hop is a real transmission that must be accepted by exactly one radio, the reference next hop: 48 class-chosen destinations per node in both roles (quick), all 781x780 pairs (thorough); multicast level membership by reception; history independence (interleaved unicasts/multicasts of one node each judged like a first transmission) and nodes re-addressed at run time compared with fresh ones."),
  "C07": ("invariant at the API boundary: register/CE snapshot vs. reference addresses after every outermost network/mesh call of every node", "4/C07",
          "Own nasty histories (absent hops, lost ACKs/NETWORK_ACKs/fragments, loop-back, invalid arguments, node_address/multicast_level assignment, mesh calls with and without master) plus borrowed C05/C13/C14 scenarios; evidence lists return sites by (class, operation, outcome)."),
  "C11": ("byte-level reference codec + reference TMRh20-numbering fragmenter and TMRh20-style reassembler applied to the on-air frames; caller-header snapshot monitor incl. routed sends on a 3-node chain", "4/C11",
-         "Header codec over all 12-bit addresses, id edge values and wrap, all types x reserved values; one write/send/multicast per message length 0..144 x types on RF24Network and RF24Mesh against a promiscuous-ACK stub."),
+         "Header codec over all 12-bit addresses, id edge values and wrap, all types x reserved values; one write/send/multicast per message length 0..144 x types on RF24Network and RF24Mesh against a promiscuous-ACK stub; sessions of 2..4 messages (header objects re-used, long/short mixes) with an outage that starts at a chosen fragment's first attempt - a True result requires that the receiver accepted every reference frame."),
  "C13": ("offline checker over the air log (NETWORK_ACK frames by originator/PID, reception time at the origin) and the call history under per-hop fault plans", "4/C13",
-         "Routes of 1..8 hops over two-chain topologies, every message type outside the consumed ones, fault plans killing one forward hop or one NETWORK_ACK relay, tx/route timeouts varied; guard band around the route timeout admits either answer."),
+         "Routes of 1..8 hops over two-chain topologies, every message type outside the consumed ones, fault plans killing one forward hop or one NETWORK_ACK relay, tx/route timeouts varied; guard band around the route timeout admits either answer; same-header re-sends, foreign frames to relay during the origin's wait, multicast-off nodes."),
  "C14": ("application logs of all nodes + air log (packets per frame, ACK packets, relayed frames) + listening facts, judged at quiescence", "4/C14",
-         "Populated random topologies with relay / allow_multicast flags, every sender class x level None/0..4/-1/7, lengths 0..144, lazy readers and back-to-back multicasts; fragmented multicasts are a recorded known finding (unacknowledged stream without flow control)."),
+         "Populated random topologies with relay / allow_multicast flags, every sender class x level None/0..4/-1/7, lengths 0..144, lazy readers, back-to-back multicasts, multicast_level overrides and multicasts that arrive while a level member waits for a NETWORK_ACK; fragmented multicasts are a recorded known finding (unacknowledged stream without flow control)."),
  "C15": ("exception/virtual-time/air/queue monitors around update() for frames injected at the radio; exhaustive predicate sweep vs. reference", "4/C15",
-         "All 65536 values + None for the validity predicate (exhaustive); ~20k (quick) injected frames over 7 roles x levels 0..4 x all types x lengths x destination/origin classes, truncated mesh payloads, random strings, bursts of 1..3 frames."),
+         "All 65536 values + None for the validity predicate (exhaustive); ~20k (quick) injected frames over 7 roles x levels 0..4 x all types x lengths x destination/origin classes, truncated mesh payloads, random strings, bursts of 1..3 frames; every transmission must be explained by a received frame and the master's lease table may only change on requests/releases."),
  "C16": ("reference lease model + table invariant after every event + reply frames on air checked against the real listening addresses of the first hop", "4/C16",
          "All event sequences up to depth 4 (quick) / 5 (thorough) over 3 IDs x 3 via-nodes + releases, random depth-60 histories over IDs 1..255, fill/release/re-request on ten parents, save/load round trips for table sizes 0..255 in both formats."),
  "C17": ("end-state and history checker over concurrent joins on the deterministic multi-MCU scheduler: results vs. master table, application logs, documented codes", "4/C17",
-         "40 (quick) / 4000 (thorough) scenarios: master + 1..12 joiners in their own threads with start offsets, relays forced by >5 joiners, allow_children mixes, then per node lookups / mesh send / check_connection / release / re-join one at a time; hostile-medium variant judges only no-exception, termination, valid-or-None."),
+         "40 (quick) / 4000 (thorough) scenarios: master + 1..12 joiners in their own threads with start offsets, relays forced by >5 joiners, allow_children mixes, deep narrow trees joined sequentially through level-2/3 relays, timeouts sized to the joiner count; then per node (on a quiet network) lookups / mesh send across levels / check_connection / release / re-join one at a time; hostile-medium variant judges only no-exception, termination, valid-or-None."),
  "C18": ("independent bit-serial BLE link-layer 'phone model' decoding every on-air packet for the channel the radio was tuned to", "4/C18",
          "6k (quick) / 200k (thorough) cases over name/PA/MAC forms, chunk sets around the capacity boundary in single/list/tuple form, and channel histories of hop_channel / channel= / shared with-blocks up to depth 8."),
  "C19": ("independent BLE encoder/decoder: element-wise equality, corruption sweep decided by the reference, exception monitor on available()", "4/C19",
